@@ -45,7 +45,7 @@ def main():
                 if e.get("childrc", 0) != 0:
                     k = "exit %s at %s" % (e["childrc"], e.get("site") or "?")
                     deaths[k] = deaths.get(k, 0) + 1
-                if ln in bad_lines or not e.get("equal") or not e.get("resumed"):
+                if ln in bad_lines or not e.get("equal") or not e.get("resumed") or not e.get("contOK", True):
                     site = e.get("site", "")
                     if e.get("kind") == "req" and e["h"] in (doc["sched"].get("DevRewards"), doc["sched"].get("V202")) and e["k"] == 1:
                         site = "factomd-request <- node.(*Pegnetd).NullifyBurnAddress"      # its own dblock fetch (2nd request of the block)
